@@ -85,6 +85,12 @@ def render_items(text, overrides, suppress):
     ov = dict(overrides)
     ov["myst_suppress_warnings"] = [entry_str(e) for e in suppress]
     doc, warns = docutils_doctree(text, ov)
+    return items_of(doc, warns)
+
+
+def items_of(doc, warns):
+    import re
+    from docutils import nodes
     items = []
     tagre = re.compile(r"\[([\w]+)\.([\w.\-*]+)\]\s*$")
     for n in doc.findall():
@@ -145,6 +151,58 @@ def check_option_strings(ctx):
                     ctx.violation(f"--myst-suppress-warnings={spelling!r}: [{tag}] is {'shown' if shown else 'suppressed'}, "
                                   f"the list {'contains' if tag in lst else 'does not contain'} it", case)
     return n
+
+
+SPHINX_SKIP = {"heading_slug", "inv_retrieval", "deprecated", "not_supported", "topmatter", "topmatter_field", "html"}
+
+
+def _sphinx_build(job):
+    """one Sphinx project holding every trigger document; -> {name: items}"""
+    from pathlib import Path
+    from ..sphinx_runner import run_docs
+    wd, suppress = job
+    lib = trigger_library()
+    names = [n for n in lib if n not in SPHINX_SKIP]
+    exts = sorted({e for n in names for e in lib[n][1].get("myst_enable_extensions", [])})
+    docs = {f"t_{n}": f"# Doc {n}\n\n" + lib[n][0] if not lib[n][0].startswith(("#", "---")) else lib[n][0] for n in names}
+    conf = {"myst_enable_extensions": exts, "keep_warnings": True, "suppress_warnings": [entry_str(e) for e in suppress]}
+    res = run_docs(Path(wd), docs, conf, resolve=True)
+    out = {}
+    for n in names:
+        r = res.get(f"t_{n}")
+        if not r or not r["ok"] or r["doctree"] is None:
+            out[n] = {"error": (r or {}).get("error") or "no doctree"}
+            continue
+        ws = [{"tag": w["tag"], "msg": w["msg"], "level": w["level"]} for w in r["warnings"]]
+        items, untagged = items_of(r["doctree"], ws)
+        # (ids of generated nodes and absolute paths differ between builds of different directories)
+        import re
+        items = [[k, re.sub(r"/[^\s'\"]*?/(?=t_)", "", p) if isinstance(p, str) else p] for k, p in items]
+        out[n] = {"items": items, "untagged": untagged, "text": docs[f"t_{n}"]}
+    import shutil
+    shutil.rmtree(wd, ignore_errors=True)
+    return out
+
+
+def sphinx_pairs(ctx, first_id):
+    """the trigger documents through the Sphinx front end: built without and with suppress lists (keep_warnings on, so
+    that the warning nodes stay in the doctree); -> pair records in the format of _pair"""
+    lists = [[], [("myst", "")], [("myst", "*"), ("ref", "footnote")], [("myst", "header"), ("myst", "xref_missing"), ("myst", "role_unknown")],
+             [("epub", "x"), ("myst", "strikethrough"), ("myst", "directive_unknown"), ("myst", "duplicate_def")]]
+    builds = pmap(_sphinx_build, [(str(ctx.wd / f"sx{n}"), sup) for n, sup in enumerate(lists)], procs=len(lists), chunksize=1)
+    base = builds[0]
+    outs = []
+    tid = first_id
+    for sup, b in zip(lists[1:], builds[1:]):
+        for n, a in base.items():
+            o = {"id": tid, "names": [n + " (sphinx)"], "text": a.get("text", ""), "suppress": [list(e) for e in sup], "front": "sphinx"}
+            tid += 1
+            if "error" in a or "error" in b.get(n, {"error": "missing"}):
+                o["error"] = a.get("error") or b.get(n, {}).get("error", "missing")
+            else:
+                o.update({"outA": a["items"], "outB": b[n]["items"], "untagged": a["untagged"] + b[n]["untagged"]})
+            outs.append(o)
+    return outs
 
 
 def _pair(job):
@@ -347,11 +405,13 @@ def run(ctx):
         jobs.append((tid, pick, text, ov, sup))
         tid += 1
     outs = pmap(_pair, jobs, chunksize=8)
+    souts = sphinx_pairs(ctx, tid)
+    outs = list(outs) + souts
     intern = {}
     traces, keep = [], {}
     reached = set()
     for o in outs:
-        case = {"leg": "R-triggers" if o["id"] < nlib else "V", "documents": o["names"], "markdown": o["text"], "suppress_warnings": [entry_str(e) for e in o["suppress"]]}
+        case = {"leg": "R-sphinx" if o.get("front") == "sphinx" else "R-triggers" if o["id"] < nlib else "V", "documents": o["names"], "markdown": o["text"], "suppress_warnings": [entry_str(e) for e in o["suppress"]]}
         if "error" in o:
             ctx.violation(f"rendering raised {o['error']}", case)
             continue
@@ -402,7 +462,8 @@ def run(ctx):
         ctx.violation(f"the catalogue warning [{t[0]}.{t[1]}] is no longer emitted with its tag by the document(s) that trigger it ({names_})",
                       {"leg": "R-triggers", "tag": list(t), "documents": names_, "markdown": lib[names_[0]][0] if names_ else None})
     ctx.leg("R-triggers", pairs=nlib, tags_reached=sorted(".".join(t) for t in reached))
-    ctx.leg("V", pairs=len(traces) - nlib)
+    ctx.leg("V", pairs=len(traces) - nlib - len(souts))
+    ctx.leg("R-sphinx", pairs=len(souts))
     ctx.exhaustive = True
 
 
